@@ -314,16 +314,27 @@ Lemma Good_reject1 x q t st src :
   GoodD (q :: t) t x [CCb q st src]
         (mkCs (cs x) (co x) (nreq x) (ccbn x) (cchain x) (cpfix x) (pred (creg x))).
 Proof.
-  intros W S. constructor; auto; try (cbn; constructor); try lia; try constructor; auto.
+  intros W S. constructor.
+  - exact W.
+  - cbn; lia.
+  - cbn. constructor.
+  - cbn. constructor.
   - intros r. unfold cnt, pend. cbn. destruct (Nat.eq_dec q r); lia.
-  - unfold pendn. cbn. lia.
+  - reflexivity.
+  - auto.
+  - auto.
+  - intros _. reflexivity.
+  - repeat constructor. exact S.
+  - reflexivity.
+  - unfold pendn. cbn. intros H. lia.
 Qed.
 
 Lemma Good_event x ev :
   match ev with CClosed | CReg _ => True | _ => False end -> wf x -> Good x [ev] x.
 Proof.
   intros E W. destruct ev; try contradiction;
-    (constructor; auto; try (cbn; constructor); try lia; try constructor; cbn; lia).
+    (constructor; [exact W|lia|cbn; constructor|cbn; constructor|intros r; cbn; reflexivity|reflexivity|
+                   auto|auto|intros _; reflexivity|repeat constructor|reflexivity|cbn; intros H; lia]).
 Qed.
 
 Lemma wf_not_closed x : wf x -> c_closing (cs x) = false -> c_closed (cs x) = false.
